@@ -590,7 +590,7 @@ def main() -> int:
     violations: list = []
     samples: list = []
     fresh_done = 0
-    limit = 7000 if args.tier == "thorough" else 1500
+    limit = max(7000 if args.tier == "thorough" else 1500, (deadline - __import__("time").time()) + 900)
     try:
         fresh_futs = [wp.ex.submit(_fresh_task, (fresh_cases, hs)) for hs in hashseeds]
         for task, st in wp.map_unordered(worker_task, tasks, timeout=limit):
